@@ -100,6 +100,27 @@ pub assume_specification<'a, P: core::str::pattern::Pattern>[ <core::str::Split<
 pub broadcast axiom fn ax_split_nonempty(s: Seq<char>, sep: Seq<char>)
     ensures (#[trigger] split_seq(s, sep)).len() >= 1;
 
+/// R40 SHIM for `std::fmt::Formatter`: the text written so far; `write!(f, ..)` of the three shapes used by Display for
+/// LogSpecification become `f.vwrite(..)` / `f.vwrite3(..)` (core::fmt is outside the verifier). A write may fail.
+pub struct VFormatter { pub out: Vec<char> }
+impl VFormatter {
+    pub open spec fn text(&self) -> Seq<char> { self.out@ }
+    #[verifier::external_body]
+    pub fn vwrite(&mut self, s: &str) -> (r: std::fmt::Result)
+        ensures r is Ok ==> final(self).text() == old(self).text() + s@,
+    { unimplemented!() }
+    #[verifier::external_body]
+    pub fn vwrite3(&mut self, a: &str, b: &str, c: &str) -> (r: std::fmt::Result)
+        ensures r is Ok ==> final(self).text() == old(self).text() + a@ + b@ + c@,
+    { unimplemented!() }
+}
+/// oracle: the Display text of a level filter (log crate)
+pub uninterp spec fn level_text(l: log::LevelFilter) -> Seq<char>;
+pub broadcast axiom fn ax_level_to_string(l: &log::LevelFilter, r: String)
+    ensures #[trigger] vstd::string::to_string_from_display_ensures::<log::LevelFilter>(l, r) ==> r@ == level_text(*l);
+pub assume_specification<T>[ <T as From<T>>::from ](e: T) -> (r: T)
+    ensures r == e;
+
 pub mod flexi_error {
     use super::*;
     use super::log_specification::LogSpecification;
@@ -115,7 +136,7 @@ pub mod log_specification {
     use super::flexi_error::FlexiLoggerError;
     use log::LevelFilter;
     use regex::Regex;
-    broadcast use group_pat_seq, ax_str_eq, ax_empty_str, ax_as_ref_text_str, ax_trim_idem, ax_split_nonempty, ax_str_to_string, super::flexi_error::ax_error_text_nonempty;
+    broadcast use group_pat_seq, ax_str_eq, ax_empty_str, ax_level_to_string, ax_as_ref_text_str, ax_trim_idem, ax_split_nonempty, ax_str_to_string, super::flexi_error::ax_error_text_nonempty;
 
     //@ item src/log_specification.rs struct LogSpecification
     //@   dropattr #[derive
@@ -305,6 +326,40 @@ pub mod log_specification {
     //@   ens[contains_whitespace.post.reported] r ==> final(parse_errs)@.len() > 0
     //@   ens[contains_whitespace.post.silent] !r ==> final(parse_errs)@ == old(parse_errs)@
     //@   canary
+
+    // ---------------------------------------------------------------------------------------------------------------
+    // Display: the text form lists the default level (if the list ends with the default entry) and then EVERY named entry
+    // ---------------------------------------------------------------------------------------------------------------
+    pub open spec fn level_lower(l: LevelFilter) -> Seq<char> { lower_spec(level_text(l)) }
+    /// the head: the default level, if the last entry of the (sorted) list is the default entry
+    pub open spec fn render_head(mfs: Seq<ModuleFilter>) -> (Seq<char>, bool) {
+        if mfs.len() > 0 && mfs[mfs.len() - 1].module_name is None { (level_lower(mfs[mfs.len() - 1].level_filter), true) } else { (Seq::empty(), false) }
+    }
+    /// head + the first k entries: every named entry as `name = level`, separated by ", "
+    pub open spec fn render_upto(mfs: Seq<ModuleFilter>, k: int) -> (Seq<char>, bool)
+        decreases k
+    {
+        if k <= 0 { render_head(mfs) } else {
+            let (t, comma) = render_upto(mfs, k - 1);
+            match mfs[k - 1].module_name {
+                Some(name) => ((if comma { t + ", "@ } else { t }) + name@ + " = "@ + level_lower(mfs[k - 1].level_filter), true),
+                None => (t, comma),
+            }
+        }
+    }
+    impl LogSpecification {
+    //@ fn src/log_specification.rs impl std::fmt::Display for LogSpecification / fn fmt
+    //@   ret r
+    //@   props C17
+    //@   rule R40 *
+    //@   attr #[verifier::loop_isolation(false)]
+    //@   loop 1 iter it
+    //@   loop 1 inv[Display::fmt.loop.rendered] (f.text(), write_comma) == render_upto(self.module_filters@, it.index@ as int)
+    //@   loop 1 inv it.seq().len() == self.module_filters@.len() && forall|k: int| 0 <= k < it.seq().len() ==> *it.seq()[k] == self.module_filters@[k]
+    //@   req[Display::fmt.pre.empty] old(f).text().len() == 0
+    //@   ens[Display::fmt.post.rendered] r is Ok ==> final(f).text() == render_upto(self.filters(), self.filters().len() as int).0
+    //@   canary
+    }
 
     // ---------------------------------------------------------------------------------------------------------------
     // the fold of `parse_part` over all parts
